@@ -15,6 +15,8 @@ import (
 type DifferV1 struct {
 	cfg      *config.Config
 	repoInfo *repoInfo
+	// stableCommits holds the old branch commit and all of its ancestors
+	stableCommits map[plumbing.Hash]struct{}
 }
 
 // NewDifferV1 creates a new code difference analyzer
@@ -27,8 +29,9 @@ func NewDifferV1(cfg *config.Config) (*DifferV1, error) {
 		return nil, fmt.Errorf("failed to load commits: %w", err)
 	}
 	d := &DifferV1{
-		repoInfo: repoInfo,
-		cfg:      cfg,
+		repoInfo:      repoInfo,
+		cfg:           cfg,
+		stableCommits: ancestorsOf(repoInfo.commits, repoInfo.getOldHash()),
 	}
 	return d, nil
 }
@@ -179,16 +182,40 @@ func (d *DifferV1) readBlame(filepath string) ([]string, *git.BlameResult, error
 	return lines, blame, nil
 }
 
-// isCommitAfterStable checks if the given commit is after the old branch commit
+// ancestorsOf returns the given commit and all commits reachable from it through parent links
+func ancestorsOf(commits map[plumbing.Hash]*object.Commit, hash plumbing.Hash) map[plumbing.Hash]struct{} {
+	seen := map[plumbing.Hash]struct{}{hash: {}}
+	stack := []plumbing.Hash{hash}
+	for len(stack) > 0 {
+		current := stack[len(stack)-1]
+		stack = stack[:len(stack)-1]
+		commit, ok := commits[current]
+		if !ok {
+			continue
+		}
+		for _, parent := range commit.ParentHashes {
+			if _, ok := seen[parent]; !ok {
+				seen[parent] = struct{}{}
+				stack = append(stack, parent)
+			}
+		}
+	}
+	return seen
+}
+
+// isCommitAfterStable checks if the given commit is after the old branch commit,
+// i.e. it is neither the old branch commit nor one of its ancestors.
+// Commit timestamps are not used: a merged feature commit can be older than the
+// old branch commit, and commits created within the same second share a timestamp.
 func (d *DifferV1) isCommitAfterStable(commitHash plumbing.Hash, oldHash plumbing.Hash) bool {
 	// Return false if the commit is the same as old branch commit
 	if commitHash == oldHash {
 		return false
 	}
-	// Get the commit object
-	commit, ok := d.repoInfo.commits[commitHash]
-	if !ok {
+	// Unknown commits are treated as old
+	if _, ok := d.repoInfo.commits[commitHash]; !ok {
 		return false
 	}
-	return d.repoInfo.getOldCommit().Committer.When.Before(commit.Committer.When)
+	_, isStable := d.stableCommits[commitHash]
+	return !isStable
 }
